@@ -239,4 +239,39 @@ def stepsFull (cfg : Cfg F) (s : Scheme F) (dt : F) : Nat → JState → Option 
     | some (js', _) => stepsFull cfg s dt n js'
     | none => none
 
+/-! ### velocity-dependent additional forces
+
+    `reb_simulation_update_acceleration` calls the user's `additional_forces` after gravity; the callback
+    sees the particle doubles `to_double` wrote, velocities included.  A force that reads the velocities
+    is outside the reversal theorem — and really breaks reversibility (RV/Props/C10.lean has the
+    1-particle witness).  `accV` gets positions *and* velocities. -/
+
+def kickV (cfg : Cfg F) (accV : List (PDbl F) → List (V3 F)) (b : F) (s : List PInt) : Option (List PInt) :=
+  kickL b cfg.scaleVel s (accV (toDouble cfg.scalePos cfg.scaleVel s))
+
+def Op.applyV (cfg : Cfg F) (accV : List (PDbl F) → List (V3 F)) : Op F → List PInt → Option (List PInt)
+  | .drift c, s => RV.Janus.drift c cfg.scalePos cfg.scaleVel s
+  | .kick b, s => kickV cfg accV b s
+
+def runV (cfg : Cfg F) (accV : List (PDbl F) → List (V3 F)) : List (Op F) → List PInt → Option (List PInt)
+  | [], s => some s
+  | op :: r, s =>
+    match op.applyV cfg accV s with
+    | some s' => runV cfg accV r s'
+    | none => none
+
+def stepV (cfg : Cfg F) (accV : List (PDbl F) → List (V3 F)) (s : Scheme F) (dt : F) (st : List PInt) :
+    Option (List PInt) :=
+  match stepOps s dt with
+  | some ops => runV cfg accV ops st
+  | none => none
+
+def stepsV (cfg : Cfg F) (accV : List (PDbl F) → List (V3 F)) (s : Scheme F) (dt : F) :
+    Nat → List PInt → Option (List PInt)
+  | 0, st => some st
+  | n + 1, st =>
+    match stepV cfg accV s dt st with
+    | some st' => stepsV cfg accV s dt n st'
+    | none => none
+
 end RV.Janus
